@@ -1,8 +1,168 @@
-/- Model driver for C13 (stub: no ops yet). -/
+/-
+  Model driver for C13 (validation / hole filling / resampling).  Line protocol: see DrvCore.
+  A period is 8 tokens  st_month st_day st_hour end_month end_day end_hour timestep leap  built with
+  `AP.mk?` exactly as `AnalysisPeriod(...)`.
+
+    vh  <ap> <dl> <n> (moy id)*n                  -> ok <ap'> n (moy id)*      hourly validation
+    vd  <ap> <n> (doy id)*n                       -> ok <ap'> n (doy id)*      daily validation
+    vm  <ap> <n> (month id)*n                     -> ok <ap'> n (month id)*    monthly validation
+    vp  <ap> <n> (month hour minute id)*n         -> ok <ap'> n (mo-h-mi id)*  monthly-per-hour
+    cull <ap> <ts> <n> (moy id)*n                 -> ok <ap'> n (moy id)*
+    holes <ap> <validated> <n> (moy rat)*n        -> ok n rat*
+    interp <ap> <ts> <cum N|0|1> <nativeCum> <pit> <n> rat*n -> ok <ap'> n rat*
+    agg|rate <factor rat> <ts rat> <v rat>        -> ok rat
+-/
 import Ladybug.DrvCore
+import Ladybug.Model.Resample
+
+open Drv Cal Resample
 
 namespace DrvC13
-def handle (_toks : List String) : String := "bad-op"
+
+def showErr : VErr → String
+  | .value => "err:value"
+  | .assert => "err:assert"
+  | .index => "err:index"
+  | .type => "err:type"
+  | .zero => "err:zero"
+
+def period? (toks : List String) : Option (Except VErr AP) :=
+  match toks with
+  | [a, b, c, d, e, f, g, l] => do
+    let a ← a.toInt?
+    let b ← b.toInt?
+    let c ← c.toInt?
+    let d ← d.toInt?
+    let e ← e.toInt?
+    let f ← f.toInt?
+    let g ← g.toInt?
+    let l ← bool? l
+    pure (liftAP (AP.mk? a b c d e f g l))
+  | _ => none
+
+def showAP (ap : AP) : String :=
+  s!"{ap.st_month} {ap.st_day} {ap.st_hour} {ap.end_month} {ap.end_day} {ap.end_hour} {ap.timestep} {showBool ap.leap}"
+
+/-- `k` natural numbers per item. -/
+def chunks (k : Nat) : List Nat → Option (List (List Nat))
+  | [] => some []
+  | l => if l.length < k ∨ k = 0 then none else
+      match chunks k (l.drop k) with
+      | some r => some (l.take k :: r)
+      | none => none
+termination_by l => l.length
+decreasing_by simp; omega
+
+def pairs? (toks : List String) : Option (List (Nat × Nat)) := do
+  let ns ← nats toks
+  let cs ← chunks 2 ns
+  cs.mapM fun c => match c with | [a, b] => some (a, b) | _ => none
+
+def showPairs (l : List (Nat × Nat)) : String :=
+  joinSp (toString l.length :: l.map fun p => s!"{p.1} {p.2}")
+
+def showValidated (r : Except VErr (Validated (Nat × Nat))) : String :=
+  match r with
+  | .error e => showErr e
+  | .ok v => s!"ok {showAP v.ap} " ++ showPairs v.data
+
+def ratPairs? (toks : List String) : Option (List (Nat × Rat)) :=
+  let rec go : List String → Option (List (Nat × Rat))
+    | [] => some []
+    | [_] => none
+    | a :: b :: rest => do
+      let m ← a.toNat?
+      let v ← rat? b
+      let r ← go rest
+      pure ((m, v) :: r)
+  go toks
+
+def showRats (l : List Rat) : String := joinSp (toString l.length :: l.map showRat)
+
+def withAP (toks : List String) (f : AP → List String → String) : String :=
+  match period? (toks.take 8) with
+  | none => "bad-op"
+  | some (.error e) => showErr e
+  | some (.ok ap) => f ap (toks.drop 8)
+
+def handle (toks : List String) : String :=
+  match toks with
+  | "vh" :: rest => withAP rest fun ap r =>
+      match r with
+      | dl :: n :: items =>
+        match bool? dl, n.toNat?, pairs? items with
+        | some dl, some n, some ps => if ps.length ≠ n then "bad-op" else showValidated (validateHourly ap dl ps)
+        | _, _, _ => "bad-op"
+      | _ => "bad-op"
+  | "vd" :: rest => withAP rest fun ap r =>
+      match r with
+      | n :: items =>
+        match n.toNat?, pairs? items with
+        | some n, some ps => if ps.length ≠ n then "bad-op" else showValidated (validateDaily ap ps)
+        | _, _ => "bad-op"
+      | _ => "bad-op"
+  | "vm" :: rest => withAP rest fun ap r =>
+      match r with
+      | n :: items =>
+        match n.toNat?, pairs? items with
+        | some n, some ps => if ps.length ≠ n then "bad-op" else showValidated (validateMonthly ap ps)
+        | _, _ => "bad-op"
+      | _ => "bad-op"
+  | "vp" :: rest => withAP rest fun ap r =>
+      match r with
+      | n :: items =>
+        match n.toNat?, (nats items).bind (chunks 4) with
+        | some n, some cs =>
+          match cs.mapM (fun c => match c with
+              | [a, b, c, d] => some (((a, b, c) : MPH), d) | _ => none) with
+          | some ps =>
+            if ps.length ≠ n then "bad-op" else
+            match validateMPH ap ps with
+            | .error e => showErr e
+            | .ok v => s!"ok {showAP v.ap} " ++
+                joinSp (toString v.data.length :: v.data.map fun p => s!"{p.1.1}-{p.1.2.1}-{p.1.2.2} {p.2}")
+          | none => "bad-op"
+        | _, _ => "bad-op"
+      | _ => "bad-op"
+  | "cull" :: rest => withAP rest fun ap r =>
+      match r with
+      | ts :: n :: items =>
+        match ts.toNat?, n.toNat?, pairs? items with
+        | some ts, some n, some ps => if ps.length ≠ n then "bad-op" else showValidated (cull ap ts ps)
+        | _, _, _ => "bad-op"
+      | _ => "bad-op"
+  | "holes" :: rest => withAP rest fun ap r =>
+      match r with
+      | v :: n :: items =>
+        match bool? v, n.toNat?, ratPairs? items with
+        | some v, some n, some ps =>
+          if ps.length ≠ n then "bad-op" else
+          match interpolateHoles ap v ps with
+          | .error e => showErr e
+          | .ok vals => "ok " ++ showRats vals
+        | _, _, _ => "bad-op"
+      | _ => "bad-op"
+  | "interp" :: rest => withAP rest fun ap r =>
+      match r with
+      | ts :: cum :: nc :: pit :: n :: items =>
+        let cum? : Option (Option Bool) := if cum = "N" then some none else (bool? cum).map some
+        match ts.toNat?, cum?, bool? nc, bool? pit, n.toNat?, items.mapM rat? with
+        | some ts, some cum, some nc, some pit, some n, some vs =>
+          if vs.length ≠ n then "bad-op" else
+          match interpolateToTimestep ap vs ts cum nc pit with
+          | .error e => showErr e
+          | .ok (nap, out) => s!"ok {showAP nap} " ++ showRats out
+        | _, _, _, _, _, _ => "bad-op"
+      | _ => "bad-op"
+  | [op, f, ts, v] =>
+    match rat? f, rat? ts, rat? v with
+    | some f, some ts, some v =>
+      if op = "agg" then "ok " ++ showRat (timeAggregated f ts v)
+      else if op = "rate" then "ok " ++ showRat (timeRate f ts v)
+      else "bad-op"
+    | _, _, _ => "bad-op"
+  | _ => "bad-op"
+
 end DrvC13
 
 def main : IO Unit := Drv.run DrvC13.handle
